@@ -57,6 +57,17 @@ def mangle (c : VCase) (p : Bytes) : Bytes :=
   | some (pos, b) => if pos < p.length then p.set pos (UInt8.ofNat b) else p
   | none => p
 
+/-- number of leading arguments whose bytes end in front of the corrupted byte -/
+def intactArgs (c : VCase) : Nat :=
+  match c.corrupt with
+  | some (pos, _) =>
+    let rec go (vs : List Val) (off n : Nat) : Nat :=
+      match vs with
+      | [] => n
+      | v :: t => let e := off + (encArg c.be v).length; if e ≤ pos then go t e (n + 1) else n
+    go c.vals 0 0
+  | none => c.vals.length
+
 def showArgs (as : List DArg) : String := " ".intercalate (as.map fun a => s!"{a.ti}:{hexOf a.raw}")
 
 def parseArgs (s : String) : List DArg :=
@@ -84,7 +95,11 @@ def doLine (line : String) : String :=
       let got := parseArgs ah
       let want := c.vals.map Val.decoded
       if hexBytes ph != full then "C18=FAIL:encoder-output" else
-      if c.corrupt.isSome then "C18=ok"     -- only "never reads outside the payload" (no panic) is demanded
+      if got.any (fun a => unsupportedTi a.ti) then "C18=FAIL:decoded-argument-of-unsupported-type" else
+      if c.corrupt.isSome then
+        -- the arguments in front of the corrupted byte are the original ones; what the changed field decodes to is not prescribed
+        let k := intactArgs c
+        (if got.take k == want.take k then "C18=ok" else "C18=FAIL:arguments-before-the-corruption-altered")
       else if c.trunc.isSome then
         (if got.length ≤ want.length && got == want.take got.length then "C18=ok" else "C18=FAIL:truncated-payload-not-a-prefix")
       else if got != want then (if got.length != want.length then "C18=FAIL:argument-count" else "C18=FAIL:argument-type-or-value")
